@@ -944,7 +944,11 @@ func (s *Server) processPublish(cl *Client, pk packets.Packet) error {
 
 	// Only QoS 1 and 2 publishes count against the receive maximum.
 	if pk.FixedHeader.Qos > 0 && atomic.LoadInt32(&cl.State.Inflight.receiveQuota) == 0 {
-		return s.DisconnectClient(cl, packets.ErrReceiveMaximum) // ~[MQTT-3.3.4-7] ~[MQTT-3.3.4-8]
+		// The retransmission of a QoS 2 publish which is still in progress is not a further
+		// publish; it is answered below without taking any quota.
+		if pki, ok := cl.State.Inflight.Get(pk.PacketID); !ok || pki.FixedHeader.Type != packets.Pubrec {
+			return s.DisconnectClient(cl, packets.ErrReceiveMaximum) // ~[MQTT-3.3.4-7] ~[MQTT-3.3.4-8]
+		}
 	}
 
 	if !cl.Net.Inline && !s.hooks.OnACLCheck(cl, pk.TopicName, true) {
